@@ -10,6 +10,8 @@ CLAIMED = {
              note='std::stable_sort itself is not encoded (its contract is the link between the axioms and sorted output); ids exclude INT64_MIN (documented domain); timestamps valid where the order uses them.', ref='§2 C16'),
  'C14': dict(text='Bounded symbolic model checking of the real escaping and parsing functions: OPL escape followed by the OPL string parser is the identity for every Unicode scalar value (symbolic 21-bit value) and for all strings of two of them, with no structural character in the escaped form (round trip implies injectivity); every byte string up to the stated length in an exact-size buffer gives no access past the terminator and the documented exception class; XML escaping is undone by a reference attribute-value decoder.',
              note='expat is represented by a 20-line XML 1.0 attribute-value decoder in the harness; strings longer than the bound are covered only through per-code-point behaviour.', ref='§2 C14'),
+ 'C06': dict(text='Bounded symbolic model checking of the real carry-over code of three parsers: OPL line splitting for every string over {a, LF, CR} up to the stated length and every segmentation; O5mParser header + data decoding with all real per-type decoders and PBFParser blob framing on concrete small files under every single cut, pairs of cuts, one byte at a time (and all 8192 segmentations of a 14-byte file); outcome and delivered buffers must equal the one-piece run.',
+             note='The threaded pipeline is cut at queue_wrapper<std::string>::pop and add_to_queue<Buffer> (boundary models written in C++ in the wrapper TU); counterexamples are replayed natively through the real Queue/future/promise objects. XML (expat) and real decompressors as chunk sources are outside.', ref='§2 C06'),
 }
 NA = {
  'C19': 'The property is its schedule quantifier (lost wake-ups, FIFO under contention, exactly-once execution); bounded symbolic interleaving with cbmc did not finish a 2-thread toy monitor in 200 s here, and enumerating schedules would be a different technique family.',
